@@ -755,26 +755,28 @@ Definition on_local (w : world) (h : nat) (f : buf -> ctx -> res (buf * ctx * ou
 
 (* ---- C++ unique_array<T> (mptcore/array.h), T an element type of kind A ---- *)
 
-(* unique_array<T>::reserve(n): an empty array holds the static immutable dummy whose detach is
-   buffer::create_unique (NoCopy); otherwise the vtable detach, and the array keeps its buffer when
-   that refuses (reserve still reports success) *)
-Definition uarray_reserve (e : env) (w : world) (h : nat) (n : nat) : res world :=
-  match handle w h with
-  | None =>
-    let '(w1, id) := alloc e w (n * esz e KA) false true (Some KA) in Ok (set_hnd w1 h (Some id))
-  | Some id =>
-    do '(w', r) <- detach e w id (n * esz e KA);
-    match r with
-    | Some nid => Ok (set_hnd w' h (Some nid))
-    | None => Ok w'
-    end
-  end.
-
 (* number of elements of the array of handle h (0 for the dummy) *)
 Definition uarray_length (e : env) (w : world) (h : nat) : nat :=
   match handle w h with
   | Some id => match hget w id with Some b => bused b / esz e KA | None => 0 end
   | None => 0
+  end.
+
+(* unique_array<T>::reserve(n): an empty array holds the static immutable dummy whose detach is
+   buffer::create_unique (NoCopy); otherwise the vtable detach for at least the current length ("a
+   private copy keeps all elements"); when that refuses the array keeps its buffer and reserve
+   reports failure (/repo 3c052e7, 3169847) *)
+Definition uarray_reserve (e : env) (w : world) (h : nat) (n : nat) : res (world * bool) :=
+  match handle w h with
+  | None =>
+    let '(w1, id) := alloc e w (n * esz e KA) false true (Some KA) in Ok (set_hnd w1 h (Some id), true)
+  | Some id =>
+    let n' := if n <? uarray_length e w h then uarray_length e w h else n in
+    do '(w', r) <- detach e w id (n' * esz e KA);
+    match r with
+    | Some nid => Ok (set_hnd w' h (Some nid), true)
+    | None => Ok (w', false)
+    end
   end.
 
 (* the harness applies the unique_array operations only to arrays of kind A *)
@@ -789,14 +791,14 @@ Definition op_uinsert (e : env) (w : world) (h : nat) (pos : nat) : res (world *
   if negb (uarray_applicable w h) then Ok (w, OSkip) else
   let len := uarray_length e w h in
   let len' := if len <? pos then pos else len in
-  do w1 <- uarray_reserve e w h (len' + 1);
-  on_local w1 h (do_insert e (pos * esz e KA) (esz e KA)).
+  do '(w1, ok) <- uarray_reserve e w h (len' + 1);
+  if ok then on_local w1 h (do_insert e (pos * esz e KA) (esz e KA)) else Ok (w1, ORefused).
 
 (* unique_array<T>::resize(n): reserve(n), content<T>::set_length(n) *)
 Definition op_uresize (e : env) (w : world) (h : nat) (n : nat) : res (world * out) :=
   if negb (uarray_applicable w h) then Ok (w, OSkip) else
-  do w1 <- uarray_reserve e w h n;
-  on_local w1 h (do_setlen e (n * esz e KA)).
+  do '(w1, ok) <- uarray_reserve e w h n;
+  if ok then on_local w1 h (do_setlen e (n * esz e KA)) else Ok (w1, ORefused).
 
 Definition step_op (e : env) (w : world) (o : op) : res (world * out) :=
   match o with
